@@ -832,4 +832,95 @@ Proof.
     rewrite (CO _ _ _ Hnth). apply const_repr; auto.
 Qed.
 
+(** ** Copy, global.set on the machine *)
+Lemma mstep_copy M a d :
+  ms_idx M = fidx -> code_at c (ms_pc M) (ICopy :: i32_bytes a ++ i32_bytes d) -> idx_ok a -> idx_ok d ->
+  mstep M = SNext (set_pc (set_reg M d (get_local consts M a)) (ms_pc M + 9)).
+Proof.
+  intros Hi Hc Ha Hd. apply code_at_cons in Hc. destruct Hc as [H0 Hc]. apply code_at_app in Hc. destruct Hc as [H1 H2].
+  rewrite i32_bytes_length in H2. rewrite (mstep_at M Hi), H0, N2Z.id.
+  change (exec_op art mhost c consts M (ms_pc M + 1) ICopy) with
+    (let src := get_local consts M (get_i32 c (ms_pc M + 1)) in
+     SNext (set_pc (set_reg M (get_i32 c (ms_pc M + 1 + 4)) src) (ms_pc M + 1 + 8))).
+  cbv zeta. rewrite (code_at_i32 c (ms_pc M + 1) a Ha H1).
+  replace (ms_pc M + 1 + 4) with (ms_pc M + 1 + Z.of_nat 4) by lia. rewrite (code_at_i32 c _ d Hd H2).
+  do 2 f_equal. lia.
+Qed.
+
+Lemma mstep_global_set M i a :
+  ms_idx M = fidx -> code_at c (ms_pc M) (IGlobalSet :: u16_bytes (Z.of_nat i) ++ i32_bytes a) ->
+  Z.of_nat i < 65536 -> idx_ok a ->
+  mstep M = SNext (set_pc (set_mglobals M (list_set (ms_globals M) i (get_local consts M a))) (ms_pc M + 7)).
+Proof.
+  intros Hi Hc Hb Ha. apply code_at_cons in Hc. destruct Hc as [H0 Hc]. apply code_at_app in Hc. destruct Hc as [H1 H2].
+  rewrite u16_bytes_length in H2. rewrite (mstep_at M Hi), H0, N2Z.id.
+  change (exec_op art mhost c consts M (ms_pc M + 1) IGlobalSet) with
+    (let v := get_local consts M (get_i32 c (ms_pc M + 1 + 2)) in
+     SNext (set_pc (set_mglobals M (list_set (ms_globals M) (Z.to_nat (get_u16 c (ms_pc M + 1))) v)) (ms_pc M + 1 + 6))).
+  cbv zeta. rewrite (code_at_u16 c (ms_pc M + 1) (Z.of_nat i) ltac:(lia) H1), Nat2Z.id.
+  replace (ms_pc M + 1 + 2) with (ms_pc M + 1 + Z.of_nat 2) by lia. rewrite (code_at_i32 c _ a Ha H2).
+  do 2 f_equal. lia.
+Qed.
+
+(** ** Sem.set_nth *)
+Lemma set_nth_spec {A} (l : list A) : forall i x l', set_nth l i x = Some l' ->
+  (i < length l)%nat /\ length l' = length l /\
+  forall j, nth_error l' j = if Nat.eqb j i then Some x else nth_error l j.
+Proof.
+  induction l as [|a r IH]; intros [|i] x l' H; cbn in H; try discriminate.
+  - inversion H; subst. cbn. repeat split; try lia. intros [|j]; reflexivity.
+  - destruct (set_nth r i x) as [r'|] eqn:E; [|discriminate]. inversion H; subst.
+    destruct (IH _ _ _ E) as (H1 & H2 & H3). cbn. repeat split; try lia.
+    intros [|j]; cbn; [reflexivity|apply H3].
+Qed.
+
+Lemma Forall2_list_set (l : list Z) (g g' : list val) i x v :
+  Forall2 repr l g -> set_nth g i v = Some g' -> repr x v -> Forall2 repr (list_set l i x) g'.
+Proof.
+  intros F. revert i g'. induction F as [|a b l g Hab F IH]; intros [|i] g' H Hr; cbn in H; try discriminate.
+  - inversion H; subst. cbn. constructor; auto.
+  - destruct (set_nth g i v) as [r'|] eqn:E; [|discriminate]. inversion H; subst. cbn. constructor; auto.
+Qed.
+
+(** ** writing a local: re-establishing [rel] *)
+Lemma no_local_idx idx q s : is_local idx q = false -> pwf nl s q -> 0 <= idx < nl -> provider_idx q <> idx.
+Proof.
+  intros H Hp Hi E. destruct q as [r|l|k]; cbn in *.
+  - lia.
+  - subst. rewrite Z.eqb_refl in H. discriminate.
+  - destruct Hp. lia.
+Qed.
+
+Lemma rel_write_local s s1 st st' locals locals' vs restv rest M Mm i x v pc (tee : bool) :
+  rel s st locals vs M -> cwf nl s1 -> small s1 -> mupd M Mm ->
+  Forall2 (fun p w => repr (denote M p) w) rest restv -> Forall (pwf nl s1) rest -> has_local (Z.of_nat i) rest = false ->
+  set_nth locals i v = Some locals' -> repr x v ->
+  c_stack s1 = (if tee then PLocal (Z.of_nat i) :: rest else rest) -> cur_off s1 = pc ->
+  Forall2 repr (ms_globals Mm) (s_globals st') -> mem_rel (ms_mem Mm) (s_mem st') ->
+  rel s1 st' locals' (if tee then v :: restv else restv) (set_pc (set_reg Mm (Z.of_nat i) x) pc).
+Proof.
+  intros R W1 S1 U Fr Fp Hl Hs Hx Es Ep Hg Hm.
+  destruct (set_nth_spec locals i v locals' Hs) as (Hi & Hlen & Hnth).
+  assert (Hidx : 0 <= Z.of_nat i < nl) by (rewrite <- (r_nl _ _ _ _ _ R); lia).
+  assert (HNR : 0 <= Z.of_nat i < NR) by (destruct S1; destruct W1 as [[? ?] _ _ _ _]; lia).
+  assert (Hrest : Forall2 (fun p w => repr (get_local consts (set_pc (set_reg Mm (Z.of_nat i) x) pc) (provider_idx p)) w) rest restv).
+  { eapply stack_kept; eauto. intros q Hq. rewrite Forall_forall in Fp.
+    eapply no_local_idx; eauto. unfold has_local in Hl. rewrite existsb_exists in Hl.
+    destruct (is_local (Z.of_nat i) q) eqn:E; auto. exfalso. apply (proj1 (not_true_iff_false _)) in Hl; auto.
+    exists q. auto. }
+  assert (Hsame : get_local consts (set_pc (set_reg Mm (Z.of_nat i) x) pc) (Z.of_nat i) = x).
+  { apply (denote_write_same M Mm); auto; try lia. eapply reg_in_range; eauto. }
+  eapply (rel_after_write s s1 st st' locals locals' vs); eauto.
+  - rewrite Es. destruct tee; [constructor; [cbn [provider_idx]; rewrite Hsame; exact Hx|exact Hrest]|exact Hrest].
+  - rewrite Hlen. apply (r_nl _ _ _ _ _ R).
+  - intros j w Hj. rewrite Hnth in Hj. destruct (Nat.eqb_spec j i) as [->|Hne].
+    + inversion Hj; subst. rewrite Hsame. exact Hx.
+    + change (get_local consts (set_pc (set_reg Mm (Z.of_nat i) x) pc) (Z.of_nat j))
+        with (denote (set_pc (set_reg Mm (Z.of_nat i) x) pc) (PLocal (Z.of_nat j))).
+      rewrite (denote_write M Mm _ x pc (PLocal (Z.of_nat j)) U); try lia.
+      * unfold denote. cbn [provider_idx]. rewrite get_local_nonneg by lia. apply (r_locals _ _ _ _ _ R). exact Hj.
+      * eapply reg_in_range; eauto.
+      * cbn. lia.
+Qed.
+
 End Straight.
